@@ -106,6 +106,175 @@ fn msg_of(e: Box<dyn std::any::Any + Send>) -> String {
 
 fn main() {
     std::panic::set_hook(Box::new(|_| {}));
+    let args: Vec<String> = std::env::args().collect();
+    match args.get(1).map(|s| s.as_str()) {
+        Some("compile") => compile_main(),
+        Some("bristol") => bristol_main(args.get(2).map(|s| s.as_str()).unwrap_or("")),
+        _ => values_main(),
+    }
+}
+
+fn unhex(h: &str) -> String {
+    let b: Vec<u8> = (0..h.len() / 2).filter_map(|i| u8::from_str_radix(&h[2 * i..2 * i + 2], 16).ok()).collect();
+    String::from_utf8_lossy(&b).into_owned()
+}
+
+fn flat_ssa(c: &Circuit) -> String {
+    let mut v: Vec<u64> = vec![c.input_gates.len() as u64];
+    v.extend(c.input_gates.iter().map(|&x| x as u64));
+    v.push(c.gates.len() as u64);
+    for g in &c.gates {
+        match g {
+            Gate::Xor(x, y) => v.extend([1, *x as u64, *y as u64]),
+            Gate::And(x, y) => v.extend([2, *x as u64, *y as u64]),
+            Gate::Not(x) => v.extend([3, *x as u64, 0]),
+        }
+    }
+    v.push(c.output_gates.len() as u64);
+    v.extend(c.output_gates.iter().map(|&x| x as u64));
+    v.iter().map(|x| x.to_string()).collect::<Vec<_>>().join(" ")
+}
+
+fn flat_reg(c: &rc::Circuit) -> String {
+    let mut v: Vec<u64> = vec![c.input_regs.len() as u64];
+    v.extend(c.input_regs.iter().map(|&x| x as u64));
+    v.push(c.insts.len() as u64);
+    for i in &c.insts {
+        let (t, a, b) = match i.op {
+            rc::Op::Xor(rc::Xor(a, b)) => (1, a.0 as u64, b.0 as u64),
+            rc::Op::And(rc::And(a, b)) => (2, a.0 as u64, b.0 as u64),
+            rc::Op::Not(rc::Not(a)) => (3, a.0 as u64, 0),
+            rc::Op::Input(rc::Input { party, input }) => (4, party as u64, input as u64),
+        };
+        v.extend([i.out.0 as u64, t, a, b]);
+    }
+    v.push(c.max_reg_count as u64);
+    v.push(c.output_regs.len() as u64);
+    v.extend(c.output_regs.iter().map(|r| r.0 as u64));
+    v.push(c.and_ops as u64);
+    v.iter().map(|x| x.to_string()).collect::<Vec<_>>().join(" ")
+}
+
+/// `garble-plain compile`: a party of C06 built with default features in release mode.
+/// in : `SRC <hex>` | `WARM <hex>` (compile that program first, result ignored) | `CONST <party> <name> <type> <value>`
+///      | `CLEAR` (forget the constants) | `GO <fn> <register 0|1> <dedup 0|1> <via library entry 0|1>`
+/// out: per GO one line `OK S|R <flat...>` / `ERR <class>` / `PANIC`
+fn compile_main() {
+    use garble_lang::circuit_type::CircuitType;
+    use garble_lang::literal::Literal;
+    use garble_lang::token::{SignedNumType as S, UnsignedNumType as U};
+    use garble_lang::{CircuitKind, CompileOptions};
+    use std::collections::HashMap;
+    let mut src = String::new();
+    let mut consts: Vec<(String, String, String, i64)> = vec![];
+    let stdin = std::io::stdin();
+    for line in stdin.lock().lines() {
+        let Ok(line) = line else { break };
+        let t: Vec<&str> = line.split(' ').collect();
+        match t.first().copied().unwrap_or("") {
+            "SRC" => src = unhex(t.get(1).copied().unwrap_or("")),
+            "WARM" => {
+                let other = unhex(t.get(1).copied().unwrap_or(""));
+                let _ = catch_unwind(AssertUnwindSafe(|| garble_lang::compile(&other).map(|_| ())));
+            }
+            "CLEAR" => consts.clear(),
+            "CONST" if t.len() >= 5 => consts.push((t[1].to_string(), t[2].to_string(), t[3].to_string(), t[4].parse().unwrap_or(0))),
+            "GO" if t.len() >= 5 => {
+                let (fn_name, register, dedup, via_lib, defaults) = (t[1].to_string(), t[2] == "1", t[3] == "1", t[4] == "1", t[4] == "2");
+                let mut m: HashMap<String, HashMap<String, Literal>> = HashMap::new();
+                for (party, name, ty, val) in &consts {
+                    let lit = match ty.as_str() {
+                        "bool" => {
+                            if *val != 0 {
+                                Literal::True
+                            } else {
+                                Literal::False
+                            }
+                        }
+                        "u8" => Literal::NumUnsigned(*val as u64, U::U8),
+                        "u16" => Literal::NumUnsigned(*val as u64, U::U16),
+                        "u32" => Literal::NumUnsigned(*val as u64, U::U32),
+                        "u64" => Literal::NumUnsigned(*val as u64, U::U64),
+                        "i8" => Literal::NumSigned(*val, S::I8),
+                        "i16" => Literal::NumSigned(*val, S::I16),
+                        "i32" => Literal::NumSigned(*val, S::I32),
+                        "i64" => Literal::NumSigned(*val, S::I64),
+                        _ => Literal::NumUnsigned(*val as u64, U::Usize),
+                    };
+                    m.entry(party.clone()).or_default().insert(name.clone(), lit);
+                }
+                let r = catch_unwind(AssertUnwindSafe(|| -> Result<CircuitType, garble_lang::Error> {
+                    let kind = if register { CircuitKind::Register } else { CircuitKind::Ssa };
+                    if defaults {
+                        // the library's default options
+                        return garble_lang::compile_with_constants(&src, m).map(|p| p.circuit);
+                    }
+                    if via_lib && fn_name == "main" {
+                        let opts = CompileOptions { circuit_kind: kind, consts: m, optimize_duplicate_gates: dedup };
+                        return garble_lang::compile_with_options(&src, opts).map(|p| p.circuit);
+                    }
+                    let tp = garble_lang::check(&src)?;
+                    let opts = CompileOptions { circuit_kind: kind, consts: HashMap::new(), optimize_duplicate_gates: dedup };
+                    let (c, _f, _sizes) = tp.compile_with_constants(&fn_name, m, &opts)?;
+                    let mut ct = CircuitType::Ssa(c);
+                    if register {
+                        ct.to_register();
+                    }
+                    Ok(ct)
+                }));
+                match r {
+                    Ok(Ok(CircuitType::Ssa(c))) => say(&format!("OK S {}", flat_ssa(&c))),
+                    Ok(Ok(CircuitType::Register(c))) => say(&format!("OK R {}", flat_reg(&c))),
+                    Ok(Err(e)) => {
+                        use garble_lang::{CompileTimeError as C, Error as E};
+                        let class = match e {
+                            E::FnNotFound(_) => "fn_not_found",
+                            E::CompileTimeError(C::ScanErrors(_)) => "scan",
+                            E::CompileTimeError(C::ParseError(_)) => "parse",
+                            E::CompileTimeError(C::TypeError(_)) => "type",
+                            E::CompileTimeError(C::CompilerError(_)) => "compiler",
+                            E::EvalError(_) => "eval",
+                            E::ConvertError(_) => "convert",
+                        };
+                        say(&format!("ERR {class}"));
+                    }
+                    Err(e) => say(&format!("PANIC {}", msg_of(e))),
+                }
+            }
+            _ => {}
+        }
+    }
+}
+
+/// `garble-plain bristol <scratch file>`: exporter + importer of C11 built with default features in
+/// release mode, on a real (scratch) file. in: one line `S <flat...>`; out: `EXPORT ok|err|panic ...`,
+/// `BYTES <hex>`, `IMPORT ok S <flat...>|err <class>|panic <msg>`.
+fn bristol_main(path: &str) {
+    let stdin = std::io::stdin();
+    let mut line = String::new();
+    if stdin.lock().read_line(&mut line).is_err() {
+        return;
+    }
+    let flat: Vec<u64> = line.split_ascii_whitespace().skip(1).filter_map(|t| t.parse().ok()).collect();
+    let Some(c) = ssa_of(&flat) else { return };
+    let p = std::path::Path::new(path);
+    let _ = std::fs::remove_file(p);
+    match catch_unwind(AssertUnwindSafe(|| c.format_as_bristol(p))) {
+        Ok(Ok(())) => say("EXPORT ok"),
+        Ok(Err(e)) => say(&format!("EXPORT err {}", format!("{e:?}").replace('\n', " ").chars().take(120).collect::<String>())),
+        Err(e) => say(&format!("EXPORT panic {}", msg_of(e))),
+    }
+    let bytes = std::fs::read(p).unwrap_or_default();
+    say(&format!("BYTES {}", bytes.iter().map(|b| format!("{b:02x}")).collect::<String>()));
+    match catch_unwind(AssertUnwindSafe(|| Circuit::bristol_to_garble(p))) {
+        Ok(Ok(ic)) => say(&format!("IMPORT ok S {}", flat_ssa(&ic))),
+        Ok(Err(e)) => say(&format!("IMPORT err {}", format!("{e:?}").replace('\n', " ").chars().take(120).collect::<String>())),
+        Err(e) => say(&format!("IMPORT panic {}", msg_of(e))),
+    }
+    let _ = std::fs::remove_file(p);
+}
+
+fn values_main() {
     let stdin = std::io::stdin();
     for (i, line) in stdin.lock().lines().enumerate() {
         let Ok(line) = line else { break };
